@@ -42,7 +42,7 @@ impl L1 {
 
     pub fn ev(&mut self, code: u64, data: &[u8]) {
         self.log_hash = rng::mix(self.log_hash, code ^ rng::hash_bytes(data));
-        self.sig = rng::mix(self.sig, code & 0xffff);
+        self.sig = rng::mix(self.sig, (code & 0xffff) ^ (rng::hash_bytes(data) << 16));
     }
 
     pub fn finish(mut self, res: Result<(), Violation>, nontrivial: bool) -> RunOut {
@@ -687,5 +687,448 @@ fn counter_limit(l: &mut L1, p: &mut Pair, log: &mut SealLog) -> Result<(), Viol
             return Err(Violation::new("counter-limit", "datagram-below-56-bit-limit-rejected", format!("seal #{} after placement: counter still fits 56 bits but the peer rejected the datagram", i)));
         }
     }
+    Ok(())
+}
+
+// ================================================================ C06 (cipher negotiation)
+
+pub const SPEED_GRID: [f32; 6] = [0.0, 1.0, 50.0, 50.0, 400.0, 3.4e38];
+const NAMES: [&str; 3] = ["AES128", "AES256", "CHACHA20"];
+
+#[derive(Clone, Debug, PartialEq)]
+enum Outcome {
+    Plain,
+    Cipher(Vec<usize>),
+    NoCommon,
+}
+
+/// Reference (independent of the code): plain iff both allow it; else the common ciphers whose slower side is fastest
+fn ref_select(a_set: u8, a_speeds: [f32; 3], b_set: u8, b_speeds: [f32; 3]) -> Outcome {
+    if a_set & 1 != 0 && b_set & 1 != 0 {
+        return Outcome::Plain;
+    }
+    let mut best: Option<f32> = None;
+    let mut which = vec![];
+    for c in 0..3 {
+        if a_set & (2 << c) != 0 && b_set & (2 << c) != 0 {
+            let m = if a_speeds[c] < b_speeds[c] { a_speeds[c] } else { b_speeds[c] };
+            match best {
+                Some(b) if m < b => {}
+                Some(b) if m == b => which.push(c),
+                _ => {
+                    best = Some(m);
+                    which = vec![c];
+                }
+            }
+        }
+    }
+    if which.is_empty() {
+        Outcome::NoCommon
+    } else {
+        Outcome::Cipher(which)
+    }
+}
+
+fn list_for(l: &mut L1, set: u8, order_seed: u32) -> Vec<&'static str> {
+    // members of the set (bit 0 plain, bits 1..3 ciphers) in a permutation chosen by order_seed
+    let mut v: Vec<&'static str> = vec![];
+    if set & 1 != 0 {
+        v.push("plain");
+    }
+    for c in 0..3 {
+        if set & (2 << c) != 0 {
+            v.push(CIPHERS[c]);
+        }
+    }
+    let mut r = rng::Rng::new(order_seed as u64 ^ 0x0c06);
+    for i in (1..v.len()).rev() {
+        let j = r.below(i as u64 + 1) as usize;
+        v.swap(i, j);
+    }
+    let _ = l;
+    v
+}
+
+/// one handshake under the given configuration; who: 0 = A dials, 1 = B dials, 2 = both
+/// returns (cipher at A, cipher at B, fatal errors seen)
+#[allow(clippy::too_many_arguments)]
+fn negotiate(l: &mut L1, seed: u64, la: &[&str], lb: &[&str], sa: [f32; 3], sb: [f32; 3], who: u32, edit: Option<(u32, u32, u32)>) -> Result<(Option<&'static str>, Option<&'static str>, Vec<String>, bool), Violation> {
+    let hooks = io::install_hooks(seed);
+    let mut cfg_a = pair::shared_key_config(la);
+    // an empty list means "defaults" to the configuration parser; the empty SET is expressed as a list that
+    // only allows plain on one side, so use sets with at least one member
+    let mut cfg_b = cfg_a.clone();
+    cfg_a.algorithms = la.iter().map(|s| s.to_string()).collect();
+    cfg_b.algorithms = lb.iter().map(|s| s.to_string()).collect();
+    let mut p = Pair::new(hooks, &cfg_a, &cfg_b, sa, sb).map_err(|e| Violation::new("setup", "crypto-setup-failed", e))?;
+    let mut flight: Vec<(char, Vec<u8>)> = vec![];
+    if who == 0 || who == 2 {
+        if let Some(d) = p.dial('A', false) {
+            flight.push(('B', d));
+        }
+    }
+    if who == 1 || who == 2 {
+        if let Some(d) = p.dial('B', false) {
+            flight.push(('A', d));
+        }
+    }
+    let mut edited_rejected = true;
+    let mut edit = edit;
+    let mut guard = 0;
+    let mut ticks = 0;
+    loop {
+        while !flight.is_empty() && guard < 80 {
+            guard += 1;
+            let k = if who == 2 { l.ch.choose("hs_which", flight.len() as u32) as usize } else { 0 };
+            let (to, d) = flight.remove(k);
+            // in-flight edit of the cipher list of the first message that carries one
+            if let Some((field, idx, val)) = edit {
+                if let Some(lay) = super::refmodel::handshake_layout(&d) {
+                    if let Some((_, _, body, len)) = lay.parts.iter().find(|p| p.0 == 4).copied() {
+                        let mut e = d.clone();
+                        match field {
+                            0 if len >= 5 => {
+                                // algorithm id of entry idx
+                                let at = body + (idx as usize % (len / 5)) * 5;
+                                e[at] = (e[at] + 1 + (val % 3) as u8) % 4;
+                            }
+                            1 if len >= 5 => {
+                                // a speed byte
+                                let at = body + (idx as usize % (len / 5)) * 5 + 1 + (val as usize % 4);
+                                e[at] ^= 0x40;
+                            }
+                            _ => {
+                                // the length of the list (drop or add an entry's worth)
+                                let at = body - 2;
+                                let cur = u16::from_be_bytes([e[at], e[at + 1]]);
+                                let nv = if val % 2 == 0 { cur.saturating_sub(5) } else { cur + 5 };
+                                e[at..at + 2].copy_from_slice(&nv.to_be_bytes());
+                            }
+                        }
+                        edit = None;
+                        l.count("c06_lists_edited_in_flight");
+                        let before_a = (p.a.peer.is_some(), p.a.pending.as_ref().map(|o| o.pc.verif_init_stage()));
+                        let before_b = (p.b.peer.is_some(), p.b.pending.as_ref().map(|o| o.pc.verif_init_stage()));
+                        match p.deliver(to, &e) {
+                            Handled::Err(_) => {}
+                            Handled::Ok { .. } => edited_rejected = false,
+                        }
+                        let after_a = (p.a.peer.is_some(), p.a.pending.as_ref().map(|o| o.pc.verif_init_stage()));
+                        let after_b = (p.b.peer.is_some(), p.b.pending.as_ref().map(|o| o.pc.verif_init_stage()));
+                        if before_a != after_a || before_b != after_b {
+                            edited_rejected = false;
+                        }
+                        // the genuine message follows (as a retransmission would)
+                    }
+                }
+            }
+            if let Handled::Ok { replies, .. } = p.deliver(to, &d) {
+                for r in replies {
+                    if !r.is_empty() {
+                        flight.push((if to == 'A' { 'B' } else { 'A' }, r));
+                    }
+                }
+            }
+        }
+        let done = p.a.pending.is_none() && p.b.pending.is_none();
+        if done || ticks >= 6 || guard >= 80 {
+            break;
+        }
+        // retransmissions for dual open leftovers
+        ticks += 1;
+        for w in ['A', 'B'] {
+            for d in p.tick(w).map_err(|e| Violation::new("no-panic", "panic-in-tick", e))? {
+                flight.push((if w == 'A' { 'B' } else { 'A' }, d));
+            }
+        }
+    }
+    let ca = p.a.peer.as_ref().map(|o| o.pc.algorithm_name());
+    let cb = p.b.peer.as_ref().map(|o| o.pc.algorithm_name());
+    let mut errs = p.a.fatal_errors.clone();
+    errs.extend(p.b.fatal_errors.clone());
+    // established ends must interoperate
+    if ca.is_some() && cb.is_some() {
+        for (s, r) in [('A', 'B'), ('B', 'A')] {
+            let body = b"c06-probe".to_vec();
+            if let Some(dg) = p.seal(s, 0, &body) {
+                let ok = matches!(p.deliver(r, &dg), Handled::Ok { message: Some((0, ref b)), .. } if *b == body);
+                if !ok {
+                    return Err(Violation::new("negotiation", "established-ends-cannot-talk", format!("both ends completed ({:?}, {:?}) but a datagram sealed by {} does not open at {}", ca, cb, s, r)));
+                }
+            }
+        }
+    }
+    Ok((ca, cb, errs, edited_rejected))
+}
+
+pub fn c06_grid(_tier: Tier) -> u64 {
+    // pairs of non-empty subsets of {plain, aes128, aes256, chacha20}
+    15 * 15
+}
+
+pub fn c06(seed: u64, ch: Chooser, ctx: &RunCtx) -> RunOut {
+    let mut l = L1::new(ch, ctx);
+    let res = c06_inner(&mut l, seed, ctx);
+    let nt = l.counters.get("c06_negotiations_checked").copied().unwrap_or(0) > 0;
+    l.finish(res, nt)
+}
+
+fn c06_inner(l: &mut L1, seed: u64, ctx: &RunCtx) -> Result<(), Violation> {
+    // run i: subset pair (i mod 225), speeds and everything else from the seed
+    let cell = ctx.index % c06_grid(ctx.tier);
+    let a_set = 1 + (cell % 15) as u8;
+    let b_set = 1 + (cell / 15) as u8;
+    let mut sa = [0f32; 3];
+    let mut sb = [0f32; 3];
+    for c in 0..3 {
+        sa[c] = *l.ch.pick("speed_a", &SPEED_GRID);
+        sb[c] = *l.ch.pick("speed_b", &SPEED_GRID);
+    }
+    let expect = ref_select(a_set, sa, b_set, sb);
+    match &expect {
+        Outcome::Plain => l.count("c06_expect_plain"),
+        Outcome::NoCommon => l.count("c06_expect_no_common"),
+        Outcome::Cipher(w) if w.len() > 1 => l.count("c06_expect_tie"),
+        _ => l.count("c06_expect_unique_cipher"),
+    }
+    // metamorphic: several list orders x initiator assignments must give one and the same outcome
+    let variants = 2 + l.ch.choose("variants", 3);
+    let mut seen: Option<Option<&'static str>> = None;
+    let edit_variant = if l.ch.chance("edit_in_flight", 400) { Some(l.ch.choose("edit_variant", variants)) } else { None };
+    for v in 0..variants {
+        let oa = l.ch.seed32("order_a");
+        let ob = l.ch.seed32("order_b");
+        let la = list_for(l, a_set, oa);
+        let lb = list_for(l, b_set, ob);
+        let who = l.ch.choose("initiator", 3);
+        let edit = if edit_variant == Some(v) { Some((l.ch.choose("edit_field", 3), l.ch.choose("edit_index", 4), l.ch.choose("edit_value", 8))) } else { None };
+        let (ca, cb, errs, edited_rejected) = negotiate(l, rng::mix(seed, v as u64), &la, &lb, sa, sb, who, edit)?;
+        l.ev(30 + who as u64, format!("{:?}{:?}{:?}{:?}", la, lb, ca, cb).as_bytes());
+        l.count("c06_negotiations_checked");
+        l.note(|| format!("A {:?} {:?}  B {:?} {:?}  initiator {}  -> A={:?} B={:?} (reference {:?})", la, sa, lb, sb, who, ca, cb, expect));
+        let desc = format!("A advertises {:?} speeds {:?}, B advertises {:?} speeds {:?}, initiator {}", la, sa, lb, sb, ["A", "B", "both"][who as usize]);
+        if edit.is_some() && !edited_rejected {
+            return Err(Violation::new("no-downgrade", "edited-cipher-list-not-rejected", format!("{}: a ping/pong whose cipher list was edited in transit was not rejected", desc)));
+        }
+        match &expect {
+            Outcome::NoCommon => {
+                if ca.is_some() || cb.is_some() {
+                    return Err(Violation::new("negotiation", "connected-without-common-cipher", format!("{}: no common cipher, yet A={:?} B={:?}", desc, ca, cb)));
+                }
+                if !errs.iter().any(|e| e.contains("No common algorithms")) {
+                    return Err(Violation::new("negotiation", "no-clean-failure-without-common-cipher", format!("{}: expected a clean 'no common algorithms' failure, saw {:?}", desc, errs)));
+                }
+            }
+            Outcome::Plain => {
+                if ca != Some("PLAIN") || cb != Some("PLAIN") {
+                    return Err(Violation::new("negotiation", "plain-expected", format!("{}: both enabled plain but A={:?} B={:?}", desc, ca, cb)));
+                }
+            }
+            Outcome::Cipher(best) => {
+                if ca.is_none() || cb.is_none() {
+                    return Err(Violation::new("negotiation", "handshake-failed-despite-common-cipher", format!("{}: common ciphers exist (best {:?}) but A={:?} B={:?}, errors {:?}", desc, best.iter().map(|c| NAMES[*c]).collect::<Vec<_>>(), ca, cb, errs)));
+                }
+                if ca != cb {
+                    return Err(Violation::new("negotiation", "ends-selected-different-ciphers", format!("{}: A={:?} B={:?}", desc, ca, cb)));
+                }
+                let name = ca.unwrap();
+                if name == "PLAIN" {
+                    return Err(Violation::new("no-downgrade", "plain-without-mutual-consent", format!("{}: unencrypted although not both ends enabled it", desc)));
+                }
+                if !best.iter().any(|c| NAMES[*c] == name) {
+                    return Err(Violation::new("negotiation", "not-the-fastest-common-cipher", format!("{}: selected {} but the slower side is fastest for {:?}", desc, name, best.iter().map(|c| NAMES[*c]).collect::<Vec<_>>())));
+                }
+            }
+        }
+        // same outcome under every order / initiator
+        match seen {
+            None => seen = Some(ca),
+            Some(prev) => {
+                if prev != ca {
+                    return Err(Violation::new("order-independence", "outcome-depends-on-order-or-initiator", format!("{}: selected {:?}, but another list order / initiator gave {:?}", desc, ca, prev)));
+                }
+            }
+        }
+    }
+    Ok(())
+}
+
+// ================================================================ C05 (pair level agreement)
+
+pub fn c05_sweep_len(tier: Tier) -> u32 {
+    match tier {
+        Tier::Quick => 4,
+        Tier::Thorough => 6,
+    }
+}
+
+pub fn c05_sweep_size(tier: Tier) -> u64 {
+    8u64.pow(c05_sweep_len(tier))
+}
+
+pub fn c05(seed: u64, ch: Chooser, ctx: &RunCtx, l1_index: u64) -> RunOut {
+    let mut l = L1::new(ch, ctx);
+    let res = c05_inner(&mut l, seed, ctx, l1_index);
+    let nt = l.counters.get("c05_l1_completions").copied().unwrap_or(0) > 0;
+    l.finish(res, nt)
+}
+
+fn c05_inner(l: &mut L1, seed: u64, ctx: &RunCtx, l1_index: u64) -> Result<(), Violation> {
+    let sweep = l1_index < c05_sweep_size(ctx.tier);
+    let hooks = io::install_hooks(seed);
+    let cipher = if sweep { CIPHERS[(l1_index % 3) as usize] } else { *l.ch.pick("cipher", &["aes128", "aes256", "chacha20", "plain"]) };
+    let cfg_a = pair::shared_key_config(&[cipher]);
+    let cfg_b = cfg_a.clone();
+    let mut p = Pair::new(hooks, &cfg_a, &cfg_b, [600.0, 500.0, 400.0], [600.0, 500.0, 400.0]).map_err(|e| Violation::new("setup", "crypto-setup-failed", e))?;
+    let mut flight: Vec<(char, Vec<u8>)> = vec![];
+    let steps = if sweep { c05_sweep_len(ctx.tier) } else { 10 + l.ch.choose("steps", 190) };
+    l.count(if sweep { "c05_l1_sweep_runs" } else { "c05_l1_random_runs" });
+    let mut idx = l1_index;
+    let mut checked_pairs: BTreeSet<(u32, u32)> = BTreeSet::new();
+    for _ in 0..steps {
+        // alphabet: 0 A initiates, 1 B initiates, 2 deliver oldest, 3 deliver any, 4 deliver a duplicate,
+        // 5 drop, 6 tick A, 7 tick B
+        let op = if sweep {
+            let d = idx % 8;
+            idx /= 8;
+            d as usize
+        } else {
+            l.ch.weighted("op", &[2, 2, 6, 4, 2, 2, 2, 2])
+        };
+        l.ev(40 + op as u64, &[]);
+        match op {
+            0 | 1 => {
+                let who = if op == 0 { 'A' } else { 'B' };
+                // like the node: no new attempt while one is pending or a peer exists (timeout re-dials drop the peer first)
+                let force = !sweep && l.ch.chance("redial_although_peer", 100);
+                if let Some(d) = p.dial(who, force) {
+                    flight.push((if who == 'A' { 'B' } else { 'A' }, d));
+                    l.count("c05_l1_dials");
+                    let att = p.end(who).next_attempt - 1;
+                    l.note(|| format!("{} initiates attempt #{}{}", who, att, if force { " (forced re-dial)" } else { "" }));
+                }
+            }
+            2 | 3 | 4 => {
+                if flight.is_empty() {
+                    continue;
+                }
+                let k = if op == 2 { 0 } else if sweep { flight.len() - 1 } else { l.ch.choose("which", flight.len() as u32) as usize };
+                let (to, d) = if op == 4 { flight[k].clone() } else { flight.remove(k) };
+                if op == 4 {
+                    l.count("fault_dup");
+                }
+                if k != 0 {
+                    l.count("fault_reorder");
+                }
+                let stage = if d.len() > 13 && d[0] == 0xff { d[12] } else { 0 };
+                let h = p.deliver(to, &d);
+                l.note(|| format!("deliver to {} {}{} bytes (handshake stage {}): {}", to, if op == 4 { "a duplicate of " } else { "" }, d.len(), stage, match &h {
+                    Handled::Err(e) => format!("error {}", e),
+                    Handled::Ok { replies, completed, .. } => format!("{} replies{}", replies.len(), completed.as_ref().map(|c| format!(", completes attempt #{} as {} with payload of the other's attempt #{}", c.attempt, if c.initiator { "initiator" } else { "responder" }, if c.peer_payload.len() > 4 { c.peer_payload[4] } else { 0 })).unwrap_or_default()),
+                }));
+                match h {
+                    Handled::Err(e) if e.starts_with("panic") => return Err(Violation::new("no-panic", "panic-in-receive", e)),
+                    Handled::Ok { replies, completed, .. } => {
+                        for r in replies {
+                            // empty replies exist (an ignored simultaneous ping is answered by an empty datagram)
+                            flight.push((if to == 'A' { 'B' } else { 'A' }, r));
+                        }
+                        if completed.is_some() {
+                            l.count("c05_l1_completions");
+                        }
+                    }
+                    _ => {}
+                }
+            }
+            5 => {
+                if !flight.is_empty() {
+                    let k = if sweep { 0 } else { l.ch.choose("drop_which", flight.len() as u32) as usize };
+                    flight.remove(k);
+                    l.count("fault_drop");
+                    l.note(|| format!("drop in-flight datagram {}", k));
+                }
+            }
+            _ => {
+                let who = if op == 6 { 'A' } else { 'B' };
+                l.ticks += 1;
+                l.note(|| format!("tick {}", who));
+                for d in p.tick(who).map_err(|e| Violation::new("no-panic", "panic-in-tick", e))? {
+                    flight.push((if who == 'A' { 'B' } else { 'A' }, d));
+                }
+            }
+        }
+        // ---- agreement oracle
+        for who in ['A', 'B'] {
+            let e = p.end(who);
+            let mut per: BTreeMap<u32, u32> = BTreeMap::new();
+            for c in &e.completions {
+                *per.entry(c.attempt).or_insert(0) += 1;
+            }
+            if let Some((att, n)) = per.iter().find(|(_, n)| **n > 1) {
+                return Err(Violation::new("agreement", "attempt-completed-twice", format!("end {} reported success {} times for its attempt {}", who, n, att)));
+            }
+        }
+        // payloads received are exactly what the other end offered for one of its attempts
+        for (who, other) in [('A', 'B'), ('B', 'A')] {
+            let next = p.end(other).next_attempt;
+            let comps = p.end(who).completions.clone();
+            for c in &comps {
+                let k = if c.peer_payload.len() >= 5 { u32::from_be_bytes([c.peer_payload[1], c.peer_payload[2], c.peer_payload[3], c.peer_payload[4]]) } else { 0 };
+                let offered = pair::payload_for(other, k);
+                if k == 0 || k >= next || c.peer_payload != offered {
+                    return Err(Violation::new("agreement", "received-payload-not-as-offered", format!("end {} completed attempt {} with a payload the other end never offered ({} bytes)", who, c.attempt, c.peer_payload.len())));
+                }
+            }
+        }
+        // matched pair of current connections
+        let ca = p.a.peer.as_ref().map(|o| o.attempt).and_then(|att| p.a.completions.iter().rev().find(|c| c.attempt == att).cloned());
+        let cb = p.b.peer.as_ref().map(|o| o.attempt).and_then(|att| p.b.completions.iter().rev().find(|c| c.attempt == att).cloned());
+        if let (Some(ca), Some(cb)) = (ca, cb) {
+            let a_saw = u32::from_be_bytes([ca.peer_payload[1], ca.peer_payload[2], ca.peer_payload[3], ca.peer_payload[4]]);
+            let b_saw = u32::from_be_bytes([cb.peer_payload[1], cb.peer_payload[2], cb.peer_payload[3], cb.peer_payload[4]]);
+            if a_saw == cb.attempt && b_saw == ca.attempt {
+                if checked_pairs.insert((ca.attempt, cb.attempt)) {
+                    l.count("c05_l1_matched_pairs_checked");
+                    if ca.initiator == cb.initiator {
+                        return Err(Violation::new("agreement", "roles-not-complementary", format!("attempts A#{} and B#{} completed with initiator flags {} and {}: not exactly one end starts key rotation", ca.attempt, cb.attempt, ca.initiator, cb.initiator)));
+                    }
+                    if ca.algorithm != cb.algorithm {
+                        return Err(Violation::new("agreement", "ciphers-differ", format!("attempts A#{} and B#{} completed with ciphers {} and {}", ca.attempt, cb.attempt, ca.algorithm, cb.algorithm)));
+                    }
+                    for (s, r) in [('A', 'B'), ('B', 'A')] {
+                        let body = format!("probe-{}-{}", ca.attempt, cb.attempt).into_bytes();
+                        if let Some(dg) = p.seal(s, 0, &body) {
+                            // a pending re-handshake on the receiver's side would swallow the probe: only check when none is pending
+                            if p.end(r).pending.is_none() {
+                                let ok = matches!(p.deliver(r, &dg), Handled::Ok { message: Some((0, ref b)), .. } if *b == body);
+                                if !ok {
+                                    return Err(Violation::new("agreement", "completed-with-different-keys", format!("attempts A#{} and B#{} both completed against each other but a datagram sealed by {} does not open at {}", ca.attempt, cb.attempt, s, r)));
+                                }
+                            }
+                        }
+                    }
+                }
+            } else if a_saw == cb.attempt || b_saw == ca.attempt {
+                // one end's current connection was completed against the other's current attempt, but not vice versa
+                l.count("c05_l1_half_matched");
+            }
+        }
+        // a B attempt must not have completed against two different A attempts (and vice versa); without
+        // encryption nothing binds a replayed peng to one attempt, and nothing needs to
+        for (who, other) in if cipher == "plain" { vec![] } else { vec![('A', 'B'), ('B', 'A')] } {
+            let mine = p.end(who).completions.clone();
+            let theirs = p.end(other).completions.clone();
+            for c in &mine {
+                let k = u32::from_be_bytes([c.peer_payload[1], c.peer_payload[2], c.peer_payload[3], c.peer_payload[4]]);
+                if let Some(t) = theirs.iter().find(|t| t.attempt == k) {
+                    let j = u32::from_be_bytes([t.peer_payload[1], t.peer_payload[2], t.peer_payload[3], t.peer_payload[4]]);
+                    if j != c.attempt {
+                        return Err(Violation::new("agreement", "attempt-completed-against-two-partners", format!("{}#{} completed against {}#{}, which itself completed against {}#{}", who, c.attempt, other, k, who, j)));
+                    }
+                }
+            }
+        }
+    }
+    l.states.push(p.a.completions.len() as u64 * 64 + p.b.completions.len() as u64);
     Ok(())
 }
